@@ -2,17 +2,22 @@
 (* design step for C36: every history of adds / cert sets / min advances / reopens over 3 chunks of     *)
 (* 2 producers, every expiry assignment in 1..MaxE, min up to MaxT.  Sizes 1,2,4 make the per-producer  *)
 (* weight identify the pending subset.                                                                   *)
+(* Crash points: the process may die inside any AddLocal / VerifyRemote / SetMin (CrashDuring).  TwoWrites *)
+(* = TRUE is the sensitivity variant in which SetMin persists the min slot in a separate write before its   *)
+(* batch: a crash may then expose the new minimum with the old tables and CrashAtomic must fail.             *)
 EXTENDS DSMRStorage
-CONSTANTS MaxT, MaxE, Original
+CONSTANTS MaxT, MaxE, Original, TwoWrites
+VARIABLE atom     \* the last crash exposed the image before or after the whole call
+mvars == <<svars, atom>>
 
 Attrs == { [c \in Chunks |-> [p |-> IF c = "c3" THEN "p2" ELSE "p1",
                                e |-> ex[c],
                                sz |-> CASE c = "c1" -> 1 [] c = "c2" -> 2 [] OTHER -> 4]]
            : ex \in [Chunks -> 1..MaxE] }
 
-MCInit == \E a \in Attrs : StorageInit(a)
+MCInit == atom = TRUE /\ \E a \in Attrs : StorageInit(a)
 
-MCNext ==
+Calls ==
   \/ \E c \in Chunks : AddLocal(c)
   \/ \E c \in Chunks, ok \in BOOLEAN : VerifyRemote(c, ok)
   \/ \E c \in Chunks, v \in BOOLEAN : SetCert(c, v)
@@ -20,5 +25,16 @@ MCNext ==
         IF Original THEN SetMinAsOriginallyCoded(t, save) ELSE SetMin(t, save)
   \/ Reopen({})
 
-MCSpec == MCInit /\ [][MCNext]_svars
+Crashes ==
+  \/ \E c \in Chunks : CrashDuring(PutImage(c), {}) /\ atom' = TRUE
+  \/ \E t \in min..MaxT, save \in SUBSET pend :
+        LET full == SetMinImage(t, save, ~Original) IN
+        IF TwoWrites
+          THEN /\ CrashDuringImages({Image, <<dPend, dAcc, t>>, full}, {})
+               /\ atom' = (<<dPend', dAcc', dMin'>> \in {Image, full})
+          ELSE CrashDuring(full, {}) /\ atom' = TRUE
+
+MCNext == (Calls /\ UNCHANGED atom) \/ Crashes
+MCSpec == MCInit /\ [][MCNext]_mvars
+CrashAtomic == atom
 =============================================================================
